@@ -262,4 +262,40 @@ Lemma route_preimage (start end_ : molecule P) ign r1 q :
   In q (filter_map (route start end_ ign) r1) <-> exists p, In p r1 /\ route start end_ ign p = Some q.
 Proof. apply in_filter_map. Qed.
 
+
+(* histories: every call made with one list object sees the list the caller built, and leaves it as it was *)
+Lemma history_spec (start end_ : molecule P) restr calls k o l' :
+  nth_error (align_history start end_ restr calls) k = Some (o, l') ->
+  l' = restr /\
+  exists d i a, nth_error calls k = Some (d, i, a) /\ o = align_args start end_ (Some restr) d i a.
+Proof.
+  unfold align_history. rewrite nth_error_map. destruct (nth_error calls k) as [[[d i] a]|]; simpl; [|discriminate].
+  intros H; inversion H; subst. split; [reflexivity|]. exists d, i, a. auto.
+Qed.
+
+Lemma history_designates (start end_ : molecule P) restr calls k c l' :
+  nth_error (align_history start end_ restr calls) k = Some (Ok (Call c), l') ->
+  l' = restr /\
+  exists d ign a, nth_error calls k = Some (d, ign, a) /\
+  let swap := m_len start <? m_len end_ in
+  c_fixed_is_start c = negb swap /\
+  c_mobile_pos c = map a_pos (m_atoms (if swap then start else end_)) /\
+  c_restr c = filter_map (route start end_ ign) restr /\
+  forall (i j : Z) (a_s a_e : atom P),
+    (0 <= i)%Z -> (0 <= j)%Z ->
+    nth_error (m_atoms start) (Z.to_nat i) = Some a_s ->
+    nth_error (m_atoms end_) (Z.to_nat j) = Some a_e ->
+    let a_fixed := if swap then a_e else a_s in
+    let a_mobile := if swap then a_s else a_e in
+    (route start end_ ign (i, j) = None <-> ign = true /\ hyd a_fixed = true) /\
+    forall i' j', route start end_ ign (i, j) = Some (i', j') ->
+      (0 <= i')%Z /\ (0 <= j')%Z /\
+      nth_error (c_fixed_pos c) (Z.to_nat i') = Some (a_pos a_fixed) /\
+      nth_error (c_mobile_pos c) (Z.to_nat j') = Some (a_pos a_mobile).
+Proof.
+  intros H. destruct (history_spec _ _ _ _ _ _ _ H) as [E [d [ign [a [Hn Ho]]]]].
+  split; [assumption|]. exists d, ign, a. split; [assumption|].
+  apply (designates start end_ (Some restr) d ign a restr c); [reflexivity|now symmetry].
+Qed.
+
 End Filter.
